@@ -1,7 +1,9 @@
 CONSTANT MaxLen = 6
-CONSTANT RaceLen = 6
+CONSTANT RaceLen = 5
+CONSTANT NoticeLen = 6
 CONSTANT DriftLen = 3
 CONSTANT ColdNoBump <- True
+CONSTANT CfgSet <- SubCfgs
 SPECIFICATION HSpec
 CONSTRAINT Export
 INVARIANT TypeOK
